@@ -206,7 +206,9 @@ def main(tier, seed):
         x = offset_utpm(algopy, D, P, shp)
         base = x.data.copy()
         sel_shape = numpy.shape(base[0, 0][ix])
-        rk = rng.choice(['scalar', 'scalar', 'ndarray', 'utpm', 'utpm_bcast'])
+        rk = rng.choice(['scalar', 'scalar', 'ndarray', 'utpm', 'utpm_bcast', 'own coefficient'])
+        if rk == 'own coefficient' and D < 2:
+            rk = 'ndarray'
         meta = dict(kind='setitem', shape=list(shp), D=D, P=P, index=repr(ix), rhs=rk)
         rep.count('setitem:rhs', rk)
         rep.case(('setitem', json.dumps(meta, sort_keys=True)), True, sample=meta)
@@ -215,6 +217,15 @@ def main(tier, seed):
             if rk == 'scalar':
                 c = float(rng.randint(-9, 9)) / 4
                 rhs = c
+                for p in range(P):
+                    expect[0, p][ix] = c
+                    for d in range(1, D):
+                        expect[d, p][ix] = 0
+            elif rk == 'own coefficient':
+                # the constant assigned is a plain-array VIEW of a higher coefficient block of x itself (x[ix] = x.data[d,p][ix])
+                d_, p_ = rng.randint(1, D - 1), rng.randrange(P)
+                rhs = x.data[d_, p_][ix]
+                c = base[d_, p_][ix].copy()
                 for p in range(P):
                     expect[0, p][ix] = c
                     for d in range(1, D):
@@ -295,6 +306,10 @@ def check_ops(rep, algopy, rng, tier, terms, metas):
             rep.violation('op:%s:exception:%s' % (key, type(e).__name__), '%s%s on shape %s raises %r although NumPy accepts it' % (name, extra or '', data.shape[2:], e),
                           dict(kind='op', case=meta, data=data.tolist() if not numpy.iscomplexobj(data) else None, exc=repr(e)))
             return
+        if numpy.iscomplexobj(ref) and not numpy.iscomplexobj(yd):
+            rep.violation('op:%s:dtype' % key, '%s%s of a polynomial with complex coefficients returns %s coefficients where NumPy returns %s for every slice (imaginary parts are lost on assignment)'
+                          % (name, extra or '', yd.dtype, ref.dtype), dict(kind='op', case=meta))
+            return
         if yd.shape != ref.shape or not numpy.allclose(yd, ref, rtol=1e-13, atol=1e-13):
             rep.violation('op:%s' % key, '%s%s on shape %s differs from NumPy applied to every coefficient slice (result shape %s, NumPy %s)'
                           % (name, extra or '', data.shape[2:], yd.shape[2:], ref.shape[2:]),
@@ -346,6 +361,18 @@ def check_ops(rep, algopy, rng, tier, terms, metas):
         run('zeros_like', 'zeros', data, lambda x: algopy.zeros_like(x), lambda a: numpy.zeros_like(a))
         zshape = rng.choice([(2,), (2, 3), 3])
         run('zeros', 'zeros', data, lambda x: algopy.zeros(zshape, dtype=x), lambda a: numpy.zeros(zshape), extra=repr(zshape))
+        # containers built from a template with COMPLEX coefficients are complex (NumPy: zeros_like(a), zeros(shape, dtype=a.dtype)), and a
+        # polynomial stored into such a container comes back unchanged
+        cdata = data + 1j * data[::-1, ::-1]
+        run('zeros_like', 'zeros:complex', cdata, lambda x: algopy.zeros_like(x), lambda a: numpy.zeros_like(a), extra='complex')
+        run('zeros', 'zeros:complex', cdata, lambda x: algopy.zeros(zshape, dtype=x), lambda a: numpy.zeros(zshape, dtype=a.dtype), extra='complex ' + repr(zshape))
+        if len(shp) >= 1:
+            def fill(x):
+                y = algopy.zeros(x.shape, dtype=x)
+                for i_ in range(x.shape[0]):
+                    y[i_] = x[i_]
+                return y
+            run('zeros+setitem', 'zeros:complex:fill', cdata, fill, lambda a: a.copy(), extra='complex')
         # ones: zeroth coefficient one, higher zero
         try:
             o = algopy.ones(zshape, dtype=UTPM(data.copy()))
